@@ -102,15 +102,21 @@ def _build_model():
     if os.path.exists(exe) and os.path.getmtime(exe) >= newest_mtime(srcs):
         return exe
     os.makedirs(odir, exist_ok=True)
-    for f in os.listdir(odir):
-        os.unlink(os.path.join(odir, f))
-    rc, out = sh(["coqc"] + QARGS + [os.path.join(THEORIES, "Extract.v")], cwd=odir, timeout=900)
-    if rc != 0:
-        raise Infra("extraction failed:\n" + out[-3000:])
-    sh(["cp", os.path.join(ROOT, "ocaml", "modelrun.ml"), odir])
-    rc, out = sh("ocamlfind ocamlopt -w -a $(ocamldep -sort *.ml *.mli) -o modelrun", cwd=odir, timeout=900)
-    if rc != 0:
-        raise Infra("ocaml build failed:\n" + out[-3000:])
+    # build in a scratch directory and move the executable into place in one step: a check that is running the
+    # previous runner at this moment (another property, started by hand or by a parallel script) never sees it missing
+    import shutil, tempfile
+    tmp = tempfile.mkdtemp(prefix="extract-", dir=MBUILD)
+    try:
+        rc, out = sh(["coqc"] + QARGS + [os.path.join(THEORIES, "Extract.v")], cwd=tmp, timeout=900)
+        if rc != 0:
+            raise Infra("extraction failed:\n" + out[-3000:])
+        sh(["cp", os.path.join(ROOT, "ocaml", "modelrun.ml"), tmp])
+        rc, out = sh("ocamlfind ocamlopt -w -a $(ocamldep -sort *.ml *.mli) -o modelrun", cwd=tmp, timeout=900)
+        if rc != 0:
+            raise Infra("ocaml build failed:\n" + out[-3000:])
+        os.replace(os.path.join(tmp, "modelrun"), exe)
+    finally:
+        shutil.rmtree(tmp, ignore_errors=True)
     return exe
 
 
